@@ -51,7 +51,7 @@ def scenario_params(rng):
     ntask = [0, 0, 1, 2][rng.below(4)]
     wr = [15, 30, 45, 60][rng.below(4)]
     nest = [0, 15, 30][rng.below(3)]
-    return [nes, nact, rounds, ext, ntask, wr, nest]
+    return [nes, nact, rounds, ext, ntask, wr, nest, rng.below(2)]
 
 
 def validate(lg, params):
@@ -118,6 +118,7 @@ def run(res, tier, broken):
     # although the lock state did not require it), using the model-independent oracles on the recorded trace
     if broken and not any(not ni for (_, ni, _) in res.violations):
         oracle_search(res, tier)
+    native_depth(res)
     seen = set(res.cov.get("model_transitions", []))
     rw_seen = {x for x in seen if x.startswith("rw:")}
     res.add_cov(rwlock_model_transitions_total=len(ALL_TRANSITIONS),
@@ -129,9 +130,30 @@ def run(res, tier, broken):
                 scenario_statistics=dict(_stats))
 
 
+def native_depth(res):
+    """numbers of outstanding read holds far beyond the controlled scenarios (harness/nat_rwlock_depth.c, real OS threads)"""
+    import subprocess
+    exe = C.cc_harness("nat_rwlock_depth", ["nat_rwlock_depth.c"], "plain")
+    try:
+        p = subprocess.run([exe], stdout=subprocess.PIPE, stderr=subprocess.STDOUT, timeout=120)
+        rc, out = p.returncode, p.stdout.decode("utf-8", "replace")
+    except subprocess.TimeoutExpired:
+        rc, out = -999, "timeout"
+    res.add_cov(native_read_holds_max=131073)
+    if rc != 0:
+        res.violation("readers-writer lock with many read holds: " + (out.strip().split("\n")[0][:300] or "exit %s" % rc),
+                      {"native": "nat_rwlock_depth", "exit": rc, "output": out[-1500:]})
+
+
 def replay(res, path):
     import json
     rep = json.load(open(path))
+    if rep.get("native") == "nat_rwlock_depth":
+        import subprocess
+        exe = C.cc_harness("nat_rwlock_depth", ["nat_rwlock_depth.c"], "plain")
+        p = subprocess.run([exe], stdout=subprocess.PIPE, stderr=subprocess.STDOUT, timeout=120)
+        print(p.stdout.decode("utf-8", "replace")[-1500:])
+        return 1 if p.returncode != 0 else 0
     if "mode" not in rep or "params" not in rep:
         # (every replay file carries the VERIF seed, so vs.replay's own test for a schedule does not apply here)
         print("no concrete failing input in this replay; broken obligations:")
